@@ -10,6 +10,7 @@ ops
 -/
 import Driver.Proto
 import SpsdkVerif.Model.Mbi
+import SpsdkVerif.Model.MbiVx
 import SpsdkVerif.Crypto.Exec
 open SpsdkVerif Driver
 open SpsdkVerif.Mbi hiding Bytes
@@ -92,7 +93,29 @@ def step (toks : List String) : String :=
     let kv := kvOf rest
     match clsOf kv with
     | none =>
-      if op == "select" then
+      if op == "vxexport" || op == "vxparse" || op == "vxthm" then
+        -- mc56 / mwct ("Vx") images: Model/MbiVx.lean
+        let k : Vx.Kind := match kv.get? "kind" with | some "crc" => .crc | some "signed" => .signed | _ => .plain
+        let cfg : Vx.Cfg := { app := kv.hex "app", lifecycle := kv.nat "lifecycle" 255, fwVersion := kv.nat "fw", cert := kv.hex "cert",
+                              certHash := kv.hex "certhash", addHash := kv.nat "addhash" == 1, justHeader := kv.nat "jh" == 1 }
+        let sig := kv.hex "sig"
+        let pstr := fun (p : Vx.Parsed) => s!"app={hexOr p.app};lifecycle={p.lifecycle};fw={p.fwVersion}"
+        if op == "vxexport" then resLine toHex (Vx.exportImage execOps k cfg (fun _ => sig))
+        else if op == "vxparse" then resLine pstr (Vx.parseImage k (kv.hex "data"))
+        else
+          let b := fun (x : Bool) => if x then "1" else "0"
+          match Vx.exportImage execOps k cfg (fun _ => sig) with
+          | .error e => s!"wf={b (Vx.cfgWF k cfg)} export={e.tag}"
+          | .ok e =>
+            let app := SpsdkVerif.Mbi.align4 cfg.app
+            let frame := cfg.justHeader || (e.length == app.length
+              && (List.range e.length).all (fun i => Vx.owned k cfg i || e[i]? == app[i]?))
+            let rt := match Vx.parseImage k e with
+              | .ok p => p.app == e && p.fwVersion == (if k == .signed then cfg.fwVersion else 0)
+                  && p.lifecycle == (if cfg.lifecycle == 255 then (app.getD 1036 0).toNat else cfg.lifecycle)
+              | .error _ => false
+            s!"wf={b (Vx.cfgWF k cfg)} frame={b frame} rt={b rt}"
+      else if op == "select" then
         let cands := ((kv.get? "cands").getD "").splitOn ","
         let cls := cands.filterMap (fun s => match s.splitOn ":" with
           | [a, b] => (match shapes[(parseNat a).getD 9999]? with
